@@ -63,6 +63,11 @@ class MultiIndexConverter(Transformer):
         # Restore original MultiIndexes
         for dim, original_index in reference_indexes.items():
             if dim in X_inverse_transformed.dims:
+                if X_inverse_transformed.sizes[dim] != original_index.sizes[dim]:
+                    # Entirely missing samples were dropped; the simple index holds
+                    # the positions of the remaining ones in the original MultiIndex
+                    positions = X_inverse_transformed.coords[dim].values
+                    original_index = original_index.isel({dim: positions})
                 X_inverse_transformed.coords[dim] = original_index
                 # Set indexes to original MultiIndexes
                 indexes = [idx for idx in original_index.indexes.keys() if idx != dim]
